@@ -132,10 +132,22 @@ def data_streams(ctx):
     shapes = [b'x\n.\r\nMAIL FROM:<a@remote.example>\r\n', b'x\r.\r\nNOOP\r\n', b'x\n.\nNOOP\r\n', b'x\r\n.\rNOOP\r\n',
               b'x\r\n.\nNOOP\r\n', b'a\r\n.\rX\r\n', b'a\nb\rc\r\n', b'a' * 1001 + b'\n.\r\nNOOP\r\n', b'a' * 1001 + b'x\ry\r\n',
               b'a' * 999 + b'\r\n', b'.' + b'a' * 998 + b'\r\n', b'a' * 1000 + b'\r\n', b'x\ny\nz\r\n', b'x\n' + b'a' * 1001 + b'\r\n']
+    # a one-octet line in front of an over-long line whose tail starts with a dot (what is left in linein after
+    # the discard must not be taken for the end of data), and NUL octets behind a dot (the end of data is a line
+    # of exactly one octet, not a C string that compares equal to ".")
+    for k in ([999, 1000, 1001, 1002, 1003] if ctx.quick() else range(995, 1008)):
+        shapes.append(b'a\r\n' + b'X' * k + b'.y\r\nMAIL FROM:<evil@remote.example>\r\n')
+        shapes.append(b'.' + b'X' * k + b'\r\n.\r\nNOOP\r\n')
+    shapes += [b'x\ny\r\n.\x00rest\r\nMAIL FROM:<evil@remote.example>\r\n', b'ok\r\n.\x00\r\nNOOP\r\n', b'x\r\n.\x00y\nNOOP\r\n',
+               b'a\x00b\r\n', b'\x00\r\n.\x00\r\n', b'bad\rline\r\n.\x00.\r\nRSET\r\n']
     for sh in shapes:
         body = list(sh + b'ok\r\n.\r\nNOOP\r\n')
         n = len(body)
         cs = [[], [1] * min(n, 40), [2, 1, 1, 1, 1], [n - 9, 1, 1], [1001, 1, 1], [1000, 2]]
+        for mark in (b'.y', b'.\x00'):
+            i = sh.find(mark)
+            if i > 0:
+                cs += [[i], [i, 1], [i - 1, 1, 1], [3, i - 3]] if i > 3 else [[i]]
         out.append((body, cs))
     return out
 
